@@ -149,6 +149,16 @@ pub fn generate(em: &mut Emitter, seed: u64, thorough: bool) {
                 em.oracle_failures.push(format!("C06 repeat.n differs from n copies: `{}` -> {} vs {}", a, x, y));
             }
         }
+        // the procedure body may end in (or consist of operations followed by) decorators and advice
+        // injectors whose effect the caller observes afterwards through the advice stack
+        let (tail, observe) = match rng.below(4) {
+            0 => ("", ""),
+            1 => (" adv.push_u64div", " adv_push.2 drop drop"),
+            2 => (" emit.5 adv.push_u64div trace.2", " adv_push.1 drop"),
+            _ => (" trace.9", ""),
+        };
+        let body = format!("{}{}", body, tail);
+        let post = format!("{}{}", observe, post);
         let c = format!("proc.f {} end begin {} exec.f {} exec.f end", body, pre, post);
         let d = format!("begin {} {} {} {} end", pre, body, post, body);
         if let (Some(x), Some(y)) = (run_src(&c, &st, &adv), run_src(&d, &st, &adv)) {
